@@ -600,6 +600,22 @@ func c12Run(c batchCase) (out Outcome) {
 			perRegion[e.Region] = append(perRegion[e.Region], i)
 		}
 	}
+	// the FIRST request on a connection whose response reports a region's server as stopping: that response is
+	// received (nothing else breaks connections in these cases), so the successes in it have been delivered
+	firstStop := map[int]uint32{}
+	for _, e := range obs.execs {
+		if e.Result == sim.RSStopped && e.InMulti {
+			if _, seen := firstStop[e.Conn]; !seen {
+				firstStop[e.Conn] = e.CallID
+			}
+		}
+	}
+	deliveredWithStop := map[string]bool{}
+	for _, e := range obs.execs {
+		if id, ok := firstStop[e.Conn]; ok && e.CallID == id && e.Executed && e.Attempt == 1 {
+			deliveredWithStop[e.Marker] = true
+		}
+	}
 	anyFault := len(c.Scripts) > 0 || len(c.RegionStop) > 0 || len(c.ProbeStop) > 0
 	retryable := false
 	for i, op := range c.Batch {
@@ -618,6 +634,10 @@ func c12Run(c batchCase) (out Outcome) {
 		// (a region reporting its server as stopping makes the client give the connection up: the responses of
 		// other multi-requests of the batch already executed on it are lost and those calls are sent again)
 		lossy := len(c.RegionStop) > 0
+		if lossy && executions[op.Marker] > 1 && deliveredWithStop[op.Marker] {
+			return viol("executed-twice", "call %s (index %d) was executed %d times although its success travelled in the very response that reported the server as stopping (that response was received: its results are delivered before the connection is given up); server log: %q",
+				op.Marker, i, executions[op.Marker], execHistory(obs.execs))
+		}
 		if executions[op.Marker] > 1 && !lossy {
 			return viol("executed-twice", "call %s (index %d) was executed %d times; server log: %q", op.Marker, i, executions[op.Marker], execHistory(obs.execs))
 		}
